@@ -33,6 +33,8 @@ class Ctx(object):
         self.budget = float(b) if b else None
         self.caps = []
         self._pool = None
+        self.calls = []      # (function, items) of every map call: the work log from which a worker's history is rebuilt
+        self.executed = {}   # worker pid -> [(sequence number in that worker, call index, item index)]
 
     def expired(self):
         return self.budget is not None and (time.time() - self.t0) > self.budget
@@ -49,26 +51,47 @@ class Ctx(object):
             self._pool = ctx.Pool(self.workers, initializer=harness.arm_worker)
         return self._pool
 
+    def _run(self, fn, items, chunksize, ordered):
+        items = list(items)
+        if not items:
+            return []
+        ci = len(self.calls)
+        self.calls.append((fn, items))
+        safe = _Safe(fn)
+        work = list(enumerate(items))
+        if self.workers <= 1:
+            from . import harness
+            harness.arm_worker()
+            raw = [safe(w) for w in work]
+        elif ordered:
+            raw = self.pool.map(safe, work, chunksize)
+        else:
+            raw = self.pool.imap_unordered(safe, work, chunksize)
+        out = []
+        for r in raw:
+            if r[0] != 'ok':
+                raise WorkerError(r[1])
+            _st, res, wpid, seq, idx = r
+            self.executed.setdefault(wpid, []).append((seq, ci, idx))
+            if isinstance(res, dict):
+                for v in res.get('violations') or []:
+                    if isinstance(v, dict):
+                        v['_origin'] = (wpid, seq)
+            out.append(res)
+        return out
+
     def map(self, fn, items, chunksize=1):
         """Unordered parallel map over picklable items."""
-        items = list(items)
-        if not items:
-            return []
-        if self.workers <= 1:
-            from . import harness
-            harness.arm_worker()
-            return [fn(i) for i in items]
-        return _unwrap(self.pool.imap_unordered(_Safe(fn), items, chunksize))
+        return self._run(fn, items, chunksize, False)
 
     def map_ordered(self, fn, items, chunksize=1):
-        items = list(items)
-        if not items:
-            return []
-        if self.workers <= 1:
-            from . import harness
-            harness.arm_worker()
-            return [fn(i) for i in items]
-        return _unwrap(self.pool.map(_Safe(fn), items, chunksize))
+        return self._run(fn, items, chunksize, True)
+
+    def history_of(self, origin):
+        """the work items the worker process of a violation had executed up to and including the violating one"""
+        wpid, seq = origin
+        rows = sorted(r for r in self.executed.get(wpid, []) if r[0] <= seq)
+        return [(self.calls[ci][0], self.calls[ci][1][idx]) for _s, ci, idx in rows]
 
     def close(self):
         if self._pool is not None:
@@ -83,24 +106,22 @@ class _Safe(object):
     def __init__(self, fn):
         self.fn = fn
 
-    def __call__(self, item):
+    def __call__(self, work):
+        idx, item = work
+        _SEQ[0] += 1
         try:
-            return ('ok', self.fn(item))
+            return ('ok', self.fn(item), os.getpid(), _SEQ[0], idx)
         except BaseException as e:  # noqa
             return ('err', '%s: %s\n%s' % (type(e).__name__, e, traceback.format_exc()[-1500:]))
+
+
+_SEQ = [0]   # per process: how many work items this process has executed
 
 
 class WorkerError(Exception):
     pass
 
 
-def _unwrap(results):
-    out = []
-    for r in results:
-        if r[0] != 'ok':
-            raise WorkerError(r[1])
-        out.append(r[1])
-    return out
 
 
 def merge(results):
@@ -146,12 +167,20 @@ def case_size(v):
     return len(json.dumps(v.get('case'), default=str))
 
 
-def write_replay(pid, v):
+def write_replay(pid, v, history=None):
     d = os.path.join(REPLAYS, pid)
     os.makedirs(d, exist_ok=True)
-    body = json.dumps({'property': pid, 'schema': 1, 'case': v['case'], 'expected': v.get('expected'),
-                       'observed': v.get('observed'), 'signature': v.get('signature')},
-                      indent=1, sort_keys=True, default=str)
+    art = {'property': pid, 'schema': 1, 'case': v['case'], 'expected': v.get('expected'),
+           'observed': v.get('observed'), 'signature': v.get('signature')}
+    if history is not None:
+        # the deviation depends on what the process did before: the artefact carries the work items to execute first
+        import base64
+        import pickle
+        art['history_note'] = ('replay executes these %d work items in order in one fresh process; the last one must show a '
+                               'violation with the same signature' % len(history))
+        art['history_readable'] = ['%s(%s)' % (fn.__name__, repr(item)[:200]) for fn, item in history]
+        art['history_pickle'] = base64.b64encode(pickle.dumps([(fn.__module__, fn.__name__, item) for fn, item in history])).decode()
+    body = json.dumps(art, indent=1, sort_keys=True, default=str)
     h = hashlib.sha1(body.encode()).hexdigest()[:12]
     path = os.path.join(d, h + '.json')
     with open(path, 'w') as f:
@@ -226,6 +255,18 @@ def _main(argv):
             art = json.load(f)
         from . import harness
         harness.arm_worker()
+        if art.get('history_pickle'):
+            import base64
+            import pickle
+            want = sig_key(art.get('signature'))
+            last = None
+            for mname, fname, item in pickle.loads(base64.b64decode(art['history_pickle'])):
+                last = getattr(importlib.import_module(mname), fname)(item)
+            hits = [v for v in (last or {}).get('violations', []) if sig_key(v.get('signature')) == want]
+            print('expected: %s' % (art.get('expected'),))
+            print('observed: %s' % (hits[0].get('observed') if hits else 'no violation with this signature after the recorded history',))
+            print('deviates: %s' % bool(hits))
+            return 1 if hits else 0
         deviates, exp, obs = mod.replay(art['case'])
         print('expected: %s' % (exp,))
         print('observed: %s' % (obs,))
@@ -281,6 +322,22 @@ def _main(argv):
             break
         path = write_replay(pid, v)
         ok, outs = confirm(pid, path)
+        if not ok and v.get('_origin') is not None:
+            # not reproducible alone: replay it after what its worker process had executed before (shortest sufficient suffix)
+            hist = ctx.history_of(tuple(v['_origin']))
+            k = 2
+            while hist and not ok:
+                sub = hist[-k:]
+                path2 = write_replay(pid, v, history=sub)
+                ok, outs2 = confirm(pid, path2)
+                if ok:
+                    path, outs = path2, outs2
+                    print('note: reproduces only in the context of its work item and %d earlier ones of the same process (recorded in the replay)' % (len(sub) - 1))
+                else:
+                    os.remove(path2)
+                if k >= len(hist):
+                    break
+                k = min(len(hist), k * 4)
         if not ok:
             # a deviation seen in the exploring process that a fresh interpreter does not show depends on process history
             # (e.g. a process-wide cache); it is reported, and decides the exit status only if nothing was confirmed
